@@ -5,6 +5,7 @@
 # Exit 0 = no oracle violation; exit 1 + VIOLATION line = an artifact that the oracle rejects; exit 2 = infrastructure.
 set -u
 cd "$(dirname "$0")"
+export SEQIO_VERIF_DIR="${SEQIO_VERIF_DIR:-$(cd .. && pwd)}"
 ID=${1:?id}
 RUNS=${2:-${FUZZ_RUNS:-400000}}
 P=${FUZZ_PROCS:-8}
@@ -64,7 +65,8 @@ echo "$ID libfuzzer: target $TARGET, $P processes x $RUNS runs, $EXEC executions
 python3 - "$ID" "$TARGET" "$P" "$RUNS" "$EXEC" "${COV:-0}" "$N_ART" "$((T1 - T0))" "$SEED" <<'PY'
 import json, sys
 id_, target, p, runs, execs, cov, nart, secs, seed = sys.argv[1:]
-path = "/verif/evidence/%s.json" % id_
+import os
+path = os.path.join(os.environ.get("SEQIO_VERIF_DIR", "/verif"), "evidence", "%s.json" % id_)
 try:
     e = json.load(open(path))
     e["coverage"]["libfuzzer"] = {"target": target, "processes": int(p), "runs_per_process": int(runs), "executions": int(execs),
